@@ -175,6 +175,7 @@ func concRun(c *driver.Ctx, d *doc, pair [2]string, gs []op, name string) (func(
 		// every sequential order on the model
 		fileOK := false
 		var why []string
+		clauses := map[string]bool{}
 		getAllowed := make([][]outcome, len(gs))
 		for _, perm := range permutations(len(gs)) {
 			m := m0.clone()
@@ -194,12 +195,21 @@ func concRun(c *driver.Ctx, d *doc, pair [2]string, gs []op, name string) (func(
 				fileOK = true
 			} else {
 				why = append(why, fmt.Sprintf("order %v: %s: %s", perm, mm.clause, mm.detail))
+				clauses[mm.clause] = true
 			}
 		}
 		b, _ := os.ReadFile(path)
 		detail := desc + "\n" + strings.Join(rs, "\n") + "\nfile: " + clip(string(b))
 		if !fileOK {
-			return &driver.Fail{Sig: "concurrent: the file equals no sequential order of the operations", Detail: detail + "\n" + strings.Join(why, "\n")}
+			sig := "concurrent: the file equals no sequential order of the operations"
+			if len(clauses) == 1 { // the same clause fails whatever the order: not a matter of ordering
+				for cl := range clauses {
+					if strings.Contains(cl, "top-level") || strings.Contains(cl, "another registry") || strings.Contains(cl, "not one complete") {
+						sig = "concurrent: " + cl
+					}
+				}
+			}
+			return &driver.Fail{Sig: sig, Detail: detail + "\n" + strings.Join(why, "\n")}
 		}
 		for gi, r := range results {
 			if gs[gi].kind == "get" && !inAllowed(getAllowed[gi], r.c, r.err) {
